@@ -825,7 +825,7 @@ func (v *fnVC) goStmt(i *ssa.Go, st *State) {
 			}
 		}
 	}
-	v.notes = append(v.notes, "go statement at "+v.pos(i.Pos())+": spawned call not executed in the proof (no interleaving semantics)")
+	v.notes = append(v.notes, "go statement at "+v.pos(i.Pos())+": spawned call not executed in the proof (no interleaving semantics; what the goroutine writes is not part of this function's post-state)")
 }
 
 // useLemmas assumes ground instances of proved lemmas named by `use LEMMA(args)` clauses
